@@ -849,6 +849,45 @@ def Tab.step (t : Tab) : Op → Tab × Res
   | .print _ (.lit _ :: _) _ => (t, .raised .ClassError)
   | .print _ _ _ => (t, .ub)
 
+/-- **does the operation replace the slot array** (`t->data`)?  `Table_Rehash` allocates a new block, re-inserts every pair into it
+    and frees the old one; `Table_Clear` frees it and leaves `NULL`: either way every element reference handed out earlier
+    (`get`, iteration) dangles and the iteration order is that of the new block.  Statement by statement:
+    `Table_Set` — `if (t->nslots is 0) Table_Rehash(…)` **before** `Table_Set_Move` casts the key and the value (so a slot-less table
+    is given its first block even when the call is then refused; it has no element a reference could point to), the casts, the
+    insertion, `Table_Resize_More` (rehash iff `Table_Ideal_Size(nitems) > nslots`);
+    `Table_Rem` — cast, `KeyError` on a slot-less table or an absent key, the erasure, `Table_Resize_Less` (rehash iff
+    `Table_Ideal_Size(nitems) < nslots`);
+    `Table_Resize` — `n is 0`: `Table_Clear` (`free`, `NULL`: a change unless the table had no block); `n < nitems`: `FormatError`
+    before anything; otherwise `Table_Rehash` unconditionally (also to the same size);
+    `Table_Assign` — `Table_Clear` first.
+    Every other operation (get, mem, len, the members a Table lacks) writes nothing.  The harness prints `mv=1` when `t->data` after
+    the call differs from `t->data` before it; the new block of `Table_Rehash` is allocated while the old one is still live, so the
+    two always differ. -/
+def Tab.moves (t : Tab) : Op → Bool
+  | .set k v =>
+    if t.nslots = 0 then true
+    else match castTo t.kty k with
+      | .ok k' =>
+        match castTo t.vty v with
+        | .ok v' => decide (idealSize (assocSet t.items k' v').length > t.nslots)
+        | _ => false
+      | _ => false
+  | .rem k =>
+    match castTo t.kty k with
+    | .ok k' =>
+      if t.nslots = 0 then false
+      else match t.items.lookup k' with
+        | some _ => decide (idealSize (assocErase t.items k').length < t.nslots)
+        | none => false
+    | _ => false
+  | .resize n =>
+    if n = 0 then decide (t.nslots ≠ 0)
+    else if n < t.items.length then false
+    else true
+  | .assign (.str _) => true                  -- `Table_Clear`, then a fresh block of `Table_Ideal_Size(len(obj))` slots
+  | .assign _ => decide (t.nslots ≠ 0)        -- `Table_Clear`; the source is refused before anything is allocated
+  | _ => false
+
 /-! ### Tree  (src/Tree.c) -/
 
 structure Tre where
